@@ -699,7 +699,9 @@ def record_virtual_traces(worker, seed, ntraces, maxlen=40):
            {"op": "range_lazy", "a": 0, "b": 2}, {"op": "num", "axis": 0}, {"op": "carry"}, {"op": "validity"}, {"op": "evict"}, {"op": "evict"},
            {"op": "depths"}, {"op": "slice_depths", "sk": "newaxis", "a": 0, "b": 2, "axis": 0},
            {"op": "slice_depths", "sk": "ellipsis", "a": 0, "b": 2, "axis": 0}, {"op": "slice_depths", "sk": "range", "a": 0, "b": 2, "axis": 0},
-           {"op": "slice_sum", "sk": "newaxis", "a": 0, "b": 0, "axis": -1}, {"op": "slice_sum", "sk": "newaxis", "a": 0, "b": 0, "axis": 0}]
+           {"op": "slice_sum", "sk": "newaxis", "a": 0, "b": 0, "axis": -1}, {"op": "slice_sum", "sk": "newaxis", "a": 0, "b": 0, "axis": 0},
+           {"op": "slice_json", "sk": "range", "a": -2, "b": 99999, "axis": 0}, {"op": "slice_json", "sk": "range", "a": 99999, "b": -1, "axis": 0},
+           {"op": "slice_json", "sk": "range", "a": 1, "b": 99, "axis": 0}]
     wcases, plans = [], []
     for t in range(ntraces):
         mode = rng.choice(["ok", "ok", "short", "wrongform", "raises", "raise_first", "bad_first"])
@@ -712,7 +714,7 @@ def record_virtual_traces(worker, seed, ntraces, maxlen=40):
             ln, fm = 1, 0
         cfg = {"cache": rng.choice(["none", "keep", "keep", "evict_always"]), "mode": mode, "len": ln, "form": fm}
         eager = rng.choice(vmod.EAGERS)
-        n = {"ListOffset": lambda e: len(e["o"]) - 1, "Numpy": lambda e: len(e["d"]), "IndexedOption": lambda e: len(e["i"]),
+        n = {"ListOffset": lambda e: len(e["o"]) - 1, "Numpy": lambda e: (e["shape"][0] if "shape" in e else len(e["d"])), "IndexedOption": lambda e: len(e["i"]),
              "Record": lambda e: e["n"], "Regular": lambda e: len(e["x"]["d"]) // e["size"]}[eager["c"]](eager)
         sched = [rng.choice(ops) for _ in range(rng.randint(5, maxlen))]
         st = {"op": "virtual_run", "eager": eager, "mode": mode, "declare_length": ln, "declare_form": fm, "cache": cfg["cache"],
